@@ -7,12 +7,11 @@ Conventions: a series is `y : Int → Option Rat` on integer time labels (`none`
 the observations at `T-w+1 … T`; horizons are sorted lists of steps (which every constructed horizon is, C02).
 All theorems quantify over every series, cutoff, seasonal period, window length and horizon.
 
-Three clauses do NOT hold at full strength for the code as it is (known findings, see findings/C11.md); for each the
-full statement is kept in the comment, the proved theorem is `…_partial`, and a second theorem proves the negation
-at a concrete witness:
-  (F1) seasonal mean, `window_length % sp ≠ 0`: the window is padded at the END, seasons are aligned with the window start;
-  (F2) seasonal mean, in-sample step whose window is cut by the start of the series: reshape raises;
-  (F3) drift, in-sample step whose window is cut by the start of the series: slope divided by `window_length_ - 1`.
+The model is the code after the fixes ab76aa2 (seasonal mean: NaN padding at the front, by the number of observations
+in the window) and 3f305b4 (drift: slope over the observations actually in the window).  Before these commits three
+clauses held only partially (findings/C11.md, F1–F3: seasons aligned with the window START when `window_length % sp ≠ 0`;
+in-sample seasonal mean raised on a window cut by the start of the series; in-sample drift slope divided by
+`window_length_ - 1`); their witnesses stay in corpus/C11 and are now checked at full strength by the theorems below.
 -/
 import SkVerif.Lemmas.Naive
 import SkVerif.Lemmas.NaiveTop
@@ -89,17 +88,15 @@ theorem mean_eq_spec (y : Int → Val) (T : Int) (wl L : Nat) (fh : List Int) :
 
 example : predictLastWindow .mean 1 4 (window ramp 9 4) [1, 5] = .ok [some (15 / 2), some (15 / 2)] := by decide +kernel
 
-/-- FULL STATEMENT (F1; does not hold for the code as it is, see `seasonal_mean_misaligned`):
-    ∀ wl ≥ sp, predictLastWindow .mean sp wl (window y T wl) fh = .ok (fh.map (seasonalMean y T wl sp)).
-Proved when the window holds whole seasons (`wl = rows · sp`): the forecast for step `h` is the mean of the non-missing
-window observations at times `≡ T + h (mod sp)`. -/
-theorem seasonal_mean_eq_spec_partial (y : Int → Val) (T : Int) (sp rows : Nat) (hsp : 2 ≤ sp)
+/-- seasonal mean, for EVERY number `L` of observations in the window (multiple of the period or not) and every fitted
+`window_length_`: the forecast for step `h` is the mean of the non-missing window observations at times
+`≡ T + h (mod sp)` (NaN when there is none) — seasons are aligned with the END of the window. -/
+theorem seasonal_mean_eq_spec (y : Int → Val) (T : Int) (sp L wl : Nat) (hsp : 2 ≤ sp)
     (fh : List Int) (hs : Sorted fh) (hpos : ∀ h ∈ fh, 1 ≤ h) :
-    predictLastWindow .mean sp (rows * sp) (window y T (rows * sp)) fh
-      = .ok (fh.map (Spec.Naive.seasonalMean y T (rows * sp) sp)) := by
+    predictLastWindow .mean sp wl (window y T L) fh = .ok (fh.map (Spec.Naive.seasonalMean y T L sp)) := by
   have hsp0 : 0 < sp := by omega
   unfold predictLastWindow Spec.Naive.seasonalMean
-  by_cases hall : allNaN (window y T (rows * sp)) = true
+  by_cases hall : allNaN (window y T L) = true
   · simp only [hall, Bool.true_or, ↓reduceIte]
     congr 1
     apply List.map_congr_left
@@ -107,21 +104,17 @@ theorem seasonal_mean_eq_spec_partial (y : Int → Val) (T : Int) (sp rows : Nat
     symm
     apply meanOf_of_allNone
     intro v hv
-    rw [sameSeason_column y T h rows sp hsp0] at hv
-    simp only [column, List.mem_map, List.mem_range] at hv
-    obtain ⟨r, _, rfl⟩ := hv
-    cases hg : (window y T (rows * sp))[r * sp + ((h - 1) % (sp : Int)).toNat]? with
-    | none => rfl
-    | some v' =>
-      simp
-      exact (allNaN_iff _).mp hall _ (List.mem_of_getElem? hg)
+    obtain ⟨t, ht, rfl⟩ := List.mem_map.mp hv
+    exact (allNaN_iff _).mp hall _ (List.mem_map.mpr ⟨t, (List.mem_filter.mp ht).1, rfl⟩)
   · have hsp1 : ¬ (sp = 1) := by omega
-    have hrem : rows * sp % sp = 0 := Nat.mul_mod_left rows sp
-    have hrows' : (rows * sp + sp - 1) / sp = rows := by
-      have : rows * sp + sp - 1 = (sp - 1) + rows * sp := by omega
-      rw [this, Nat.add_mul_div_right _ _ hsp0, Nat.div_eq_of_lt (by omega)]; omega
     simp only [hall, isEmpty_false_of_not_allNaN _ hall, Bool.or_self, Bool.false_eq_true, ↓reduceIte, hsp1,
-      hrem, Nat.lt_irrefl, List.replicate_zero, List.append_nil, hrows', window_length, ne_eq, not_true_eq_false]
+      window_length]
+    obtain ⟨rows, hrows⟩ := pad_rows L sp hsp0
+    generalize (if L % sp > 0 then sp - L % sp else 0) = P at hrows ⊢
+    have hlen : (List.replicate P (none : Val) ++ window y T L).length / sp = rows := by
+      simp only [List.length_append, List.length_replicate, window_length, hrows]
+      exact Nat.mul_div_cancel rows hsp0
+    rw [hlen, pad_front_eq_window, hrows]
     apply mapE_ok
     intro h hh
     have hk : ((h - 1) % (sp : Int)).toNat < sp := by
@@ -131,66 +124,56 @@ theorem seasonal_mean_eq_spec_partial (y : Int → Val) (T : Int) (sp rows : Nat
     apply npGet_tileIfNeeded _ sp (by simp) hsp0 _ h (hpos h hh) (le_getLast fh hs h hh)
     rw [List.getElem?_map, List.getElem?_range hk]
     simp only [Option.map_some]
-    rw [nanmean_eq_meanOf, sameSeason_column y T h rows sp hsp0]
+    rw [nanmean_eq_meanOf, ← sameSeason_column _ T h rows sp hsp0, ← hrows, seasonalMean_blank]
 
-example : predictLastWindow .mean 3 (2 * 3) (window ramp 19 (2 * 3)) [1, 2, 3, 7]
-    = .ok [some (31 / 2), some (33 / 2), some (35 / 2), some (31 / 2)] := by decide +kernel
 
-/-- (F1) negation of the full statement at a witness: `y = 0 … 19`, `sp = 3`, `window_length = 7`, `h = 1`:
-the code forecasts 16 (mean of 13, 16, 19: the season of the window START), the textbook value is 31/2 (mean of 14, 17). -/
-theorem seasonal_mean_misaligned :
-    predictLastWindow .mean 3 7 (window ramp 19 7) [1] = .ok [some 16] ∧
-    Spec.Naive.seasonalMean ramp 19 7 3 1 = some (31 / 2) ∧
-    predictLastWindow .mean 3 7 (window ramp 19 7) [1] ≠ .ok ([1].map (Spec.Naive.seasonalMean ramp 19 7 3)) := by
-  refine ⟨by decide +kernel, by decide +kernel, by decide +kernel⟩
+example : predictLastWindow .mean 3 7 (window ramp 19 7) [1, 2, 3, 7]
+    = .ok [some (31 / 2), some (33 / 2), some 16, some (31 / 2)] := by decide +kernel
+example : Spec.Naive.seasonalMean ramp 19 7 3 1 = some (31 / 2) := by decide +kernel
 
-/-- FULL STATEMENT (F1): "seasons are aligned with the end of the training series whatever the window length":
-    ∀ wl ≥ sp, two series that agree on the window times `≡ T + h (mod sp)` get the same forecast for step `h`.
-Proved for windows of whole seasons. -/
-theorem seasonal_alignment_any_window_partial (y y' : Int → Val) (T : Int) (sp rows : Nat) (hsp : 2 ≤ sp) (h : Int)
+/-- "seasons are aligned with the end of the training series whatever the window length": two series that agree on the
+window times `≡ T + h (mod sp)` get the same forecast for step `h`, for every window length -/
+theorem seasonal_alignment_any_window (y y' : Int → Val) (T : Int) (sp L wl : Nat) (hsp : 2 ≤ sp) (h : Int)
     (h1 : 1 ≤ h)
-    (hagree : ∀ t ∈ windowTimes T (rows * sp), sameSeason T sp h t = true → y t = y' t) :
-    predictLastWindow .mean sp (rows * sp) (window y T (rows * sp)) [h]
-      = predictLastWindow .mean sp (rows * sp) (window y' T (rows * sp)) [h] := by
+    (hagree : ∀ t ∈ windowTimes T L, sameSeason T sp h t = true → y t = y' t) :
+    predictLastWindow .mean sp wl (window y T L) [h] = predictLastWindow .mean sp wl (window y' T L) [h] := by
   have hs : Sorted [h] := by simp [Sorted]
   have hp : ∀ x ∈ [h], 1 ≤ x := by simp [h1]
-  rw [seasonal_mean_eq_spec_partial y T sp rows hsp [h] hs hp, seasonal_mean_eq_spec_partial y' T sp rows hsp [h] hs hp]
-  have hm : ((windowTimes T (rows * sp)).filter (sameSeason T sp h)).map y
-      = ((windowTimes T (rows * sp)).filter (sameSeason T sp h)).map y' := by
+  rw [seasonal_mean_eq_spec y T sp L wl hsp [h] hs hp, seasonal_mean_eq_spec y' T sp L wl hsp [h] hs hp]
+  have hm : ((windowTimes T L).filter (sameSeason T sp h)).map y
+      = ((windowTimes T L).filter (sameSeason T sp h)).map y' := by
     apply List.map_congr_left
     intro t ht
     rw [List.mem_filter] at ht
     exact hagree t ht.1 ht.2
   simp only [List.map_cons, List.map_nil, Spec.Naive.seasonalMean, hm]
 
-/-- (F1) negation at a witness: two series that differ only at time 13 (not the season of `T + 1 = 20`) get different
-forecasts for step 1 when `window_length = 7`, `sp = 3`. -/
-theorem seasonal_alignment_fails_witness :
-    (∀ t ∈ windowTimes 19 7, sameSeason 19 3 1 t = true → ramp t = (fun t => if t = 13 then some 100 else ramp t) t) ∧
-    predictLastWindow .mean 3 7 (window ramp 19 7) [1]
-      ≠ predictLastWindow .mean 3 7 (window (fun t => if t = 13 then some 100 else ramp t) 19 7) [1] := by
-  refine ⟨by decide +kernel, by decide +kernel⟩
+/-- the pre-fix witness of F1 (window 13…19, sp = 3): changing the observation at time 13, which is not of the season of
+`T + 1 = 20`, does not change the forecast for step 1 any more -/
+example : predictLastWindow .mean 3 7 (window ramp 19 7) [1]
+    = predictLastWindow .mean 3 7 (window (fun t => if t = 13 then some 100 else ramp t) 19 7) [1] := by decide +kernel
 
-/-- drift: the straight line through the end points of the window, extrapolated `h` steps -/
-theorem drift_eq_spec (y : Int → Val) (T : Int) (wl : Nat) (hwl : 2 ≤ wl) (fh : List Int)
-    (hfirst : (y (T - (wl : Int) + 1)).isSome) (hlast : (y T).isSome) :
-    predictLastWindow .drift 1 wl (window y T wl) fh = .ok (fh.map (Spec.Naive.drift y T wl)) := by
+/-- drift: the straight line through the end points of the `L ≥ 2` observations in the window, extrapolated `h` steps
+(whatever the fitted `window_length_ ≠ 1`) -/
+theorem drift_eq_spec (y : Int → Val) (T : Int) (wl L : Nat) (hwl : wl ≠ 1) (hL : 2 ≤ L) (fh : List Int)
+    (hfirst : (y (T - (L : Int) + 1)).isSome) (hlast : (y T).isSome) :
+    predictLastWindow .drift 1 wl (window y T L) fh = .ok (fh.map (Spec.Naive.drift y T L)) := by
   obtain ⟨a, ha⟩ := Option.isSome_iff_exists.mp hfirst
   obtain ⟨b, hb⟩ := Option.isSome_iff_exists.mp hlast
-  have hhead : (window y T wl).head? = some (some a) := by
-    rw [List.head?_eq_getElem?, window_getElem? y T wl 0 (by omega)]; simp [ha]
-  have hlst : (window y T wl).getLast? = some (some b) := by
-    rw [List.getLast?_eq_getElem?, window_length, window_getElem? y T wl (wl - 1) (by omega)]
-    have : T - (wl : Int) + 1 + ((wl - 1 : Nat) : Int) = T := by omega
+  have hhead : (window y T L).head? = some (some a) := by
+    rw [List.head?_eq_getElem?, window_getElem? y T L 0 (by omega)]; simp [ha]
+  have hlst : (window y T L).getLast? = some (some b) := by
+    rw [List.getLast?_eq_getElem?, window_length, window_getElem? y T L (L - 1) (by omega)]
+    have : T - (L : Int) + 1 + ((L - 1 : Nat) : Int) = T := by omega
     rw [this, hb]
-  have hall : ¬ allNaN (window y T wl) = true := by
+  have hall : ¬ allNaN (window y T L) = true := by
     intro hc
     have := (allNaN_iff _).mp hc (some b) (List.mem_of_getLast? hlst)
     cases this
-  have hwl1 : ¬ (wl = 1) := by omega
+  have hL1 : ¬ (L = 1) := by omega
   unfold predictLastWindow
-  simp only [hall, isEmpty_false_of_not_allNaN _ hall, Bool.or_self, Bool.false_eq_true, ↓reduceIte, ne_eq, hwl1,
-    not_false_eq_true, hhead, hlst]
+  simp only [hall, isEmpty_false_of_not_allNaN _ hall, Bool.or_self, Bool.false_eq_true, ↓reduceIte, ne_eq, hwl,
+    not_false_eq_true, hhead, hlst, window_length, hL1]
   congr 1
   apply List.map_congr_left
   intro h _
@@ -198,23 +181,31 @@ theorem drift_eq_spec (y : Int → Val) (T : Int) (wl : Nat) (hwl : 2 ≤ wl) (f
 
 example : predictLastWindow .drift 1 4 (window squares 4 4) [1, 2] = .ok [some 21, some 26] := by decide +kernel
 
+/-- drift with a single (non-missing) observation in the window: no line through one point, numpy's 0.0/0 → NaN -/
+theorem drift_single_observation_nan (y : Int → Val) (T : Int) (wl : Nat) (hwl : wl ≠ 1) (fh : List Int)
+    (hlast : (y T).isSome) :
+    predictLastWindow .drift 1 wl (window y T 1) fh = .ok (fh.map (fun _ => none)) := by
+  obtain ⟨b, hb⟩ := Option.isSome_iff_exists.mp hlast
+  have hw : window y T 1 = [some b] := by simp [window, windowTimes, hb]
+  rw [hw]
+  simp [predictLastWindow, allNaN, hwl]
+
 /-- drift raises when an end point of the window is missing (and the window is not all missing) -/
-theorem drift_rejects_missing_endpoint (y : Int → Val) (T : Int) (wl : Nat) (hwl : 2 ≤ wl) (fh : List Int)
-    (hmiss : y (T - (wl : Int) + 1) = none ∨ y T = none) (hsome : ¬ allNaN (window y T wl) = true) :
-    predictLastWindow .drift 1 wl (window y T wl) fh = .error .value := by
-  have hhead : (window y T wl).head? = some (y (T - (wl : Int) + 1)) := by
-    rw [List.head?_eq_getElem?, window_getElem? y T wl 0 (by omega)]; simp
-  have hlst : (window y T wl).getLast? = some (y T) := by
-    rw [List.getLast?_eq_getElem?, window_length, window_getElem? y T wl (wl - 1) (by omega)]
-    have : T - (wl : Int) + 1 + ((wl - 1 : Nat) : Int) = T := by omega
+theorem drift_rejects_missing_endpoint (y : Int → Val) (T : Int) (wl L : Nat) (hwl : wl ≠ 1) (hL : 1 ≤ L) (fh : List Int)
+    (hmiss : y (T - (L : Int) + 1) = none ∨ y T = none) (hsome : ¬ allNaN (window y T L) = true) :
+    predictLastWindow .drift 1 wl (window y T L) fh = .error .value := by
+  have hhead : (window y T L).head? = some (y (T - (L : Int) + 1)) := by
+    rw [List.head?_eq_getElem?, window_getElem? y T L 0 (by omega)]; simp
+  have hlst : (window y T L).getLast? = some (y T) := by
+    rw [List.getLast?_eq_getElem?, window_length, window_getElem? y T L (L - 1) (by omega)]
+    have : T - (L : Int) + 1 + ((L - 1 : Nat) : Int) = T := by omega
     rw [this]
-  have hwl1 : ¬ (wl = 1) := by omega
   unfold predictLastWindow
-  simp only [hsome, isEmpty_false_of_not_allNaN _ hsome, Bool.or_self, Bool.false_eq_true, ↓reduceIte, ne_eq, hwl1,
+  simp only [hsome, isEmpty_false_of_not_allNaN _ hsome, Bool.or_self, Bool.false_eq_true, ↓reduceIte, ne_eq, hwl,
     not_false_eq_true, hhead, hlst]
   rcases hmiss with h | h
   · rw [h]
-  · rw [h]; cases y (T - (wl : Int) + 1) <;> rfl
+  · rw [h]; cases y (T - (L : Int) + 1) <;> rfl
 
 /-! ## window-length resolution in `fit` -/
 
@@ -332,40 +323,33 @@ theorem insample_mean_eq_spec (y : Int → Val) (c : Int) (wl k : Nat) :
     predictLastWindow .mean 1 wl (window y c (min wl (k + 1))) [1] = .ok [meanOf (window y c (min wl (k + 1)))] :=
   mean_eq_spec y c wl (min wl (k + 1)) [1]
 
-/-- FULL STATEMENT (F3; does not hold, see `insample_drift_truncated_witness`): for every number `k + 1 ≥ 2` of
-observations available, the in-sample drift forecast is the line through the end points of the `min wl (k+1)`
-observations in the window.  Proved when the window is not cut by the start of the series (`wl ≤ k + 1`). -/
-theorem insample_drift_eq_spec_partial (y : Int → Val) (c : Int) (wl k : Nat) (hwl : 2 ≤ wl) (hfull : wl ≤ k + 1)
-    (hfirst : (y (c - (wl : Int) + 1)).isSome) (hlast : (y c).isSome) :
-    predictLastWindow .drift 1 wl (window y c (min wl (k + 1))) [1] = .ok [Spec.Naive.drift y c wl 1] := by
-  have : min wl (k + 1) = wl := by omega
-  rw [this]; exact drift_eq_spec y c wl hwl [1] hfirst hlast
+/-- in-sample drift, for EVERY in-sample step (`k + 1` = number of observations before `t`, window possibly cut by the
+start of the series): with at least two observations in the window the forecast is the line through the end points of
+the `min wl (k+1)` observations actually in it, one step ahead; with a single observation it is NaN. -/
+theorem insample_drift_eq_spec (y : Int → Val) (c : Int) (wl k : Nat) (hwl : 2 ≤ wl)
+    (hfirst : (y (c - ((min wl (k + 1) : Nat) : Int) + 1)).isSome) (hlast : (y c).isSome) :
+    predictLastWindow .drift 1 wl (window y c (min wl (k + 1))) [1]
+      = .ok [if 2 ≤ min wl (k + 1) then Spec.Naive.drift y c (min wl (k + 1)) 1 else none] := by
+  by_cases h2 : 2 ≤ min wl (k + 1)
+  · simp only [h2, ↓reduceIte]
+    exact drift_eq_spec y c wl _ (by omega) h2 [1] hfirst hlast
+  · have h1 : min wl (k + 1) = 1 := by omega
+    rw [h1]
+    exact drift_single_observation_nan y c wl (by omega) [1] hlast
 
-/-- (F3) negation at a witness: `y = 0, 1, 4, 9, 16` (labels 0…4), `window_length_ = 5`, forecast for time 3 from the
-three observations 0, 1, 4: the code returns 4 + (4 − 0)/(5 − 1) = 5, the line through (0,0) and (2,4) gives 6. -/
-theorem insample_drift_truncated_witness :
-    predictLastWindow .drift 1 5 (window squares 2 (min 5 (2 + 1))) [1] = .ok [some 5] ∧
-    Spec.Naive.drift squares 2 (min 5 (2 + 1)) 1 = some 6 := by
-  refine ⟨by decide +kernel, by decide +kernel⟩
+/-- the pre-fix witness of F3: `y = 0, 1, 4, 9, 16`, `window_length_ = 5`, forecast for time 3 from the three
+observations 0, 1, 4 is now 6 (the line through (0,0) and (2,4)); it was 5 -/
+example : predictLastWindow .drift 1 5 (window squares 2 (min 5 (2 + 1))) [1] = .ok [some 6] := by decide +kernel
 
-/-- FULL STATEMENT (F2; does not hold, see `insample_seasonal_mean_raises_witness`): the in-sample seasonal-mean
-forecast is the mean of the same-season observations among the `min wl (k+1)` available.
-Proved when the window is whole (`wl = rows·sp ≤ k + 1`). -/
-theorem insample_seasonal_mean_eq_spec_partial (y : Int → Val) (c : Int) (sp rows k : Nat) (hsp : 2 ≤ sp)
-    (hfull : rows * sp ≤ k + 1) :
-    predictLastWindow .mean sp (rows * sp) (window y c (min (rows * sp) (k + 1))) [1]
-      = .ok [Spec.Naive.seasonalMean y c (rows * sp) sp 1] := by
-  have : min (rows * sp) (k + 1) = rows * sp := by omega
-  rw [this]
-  exact seasonal_mean_eq_spec_partial y c sp rows hsp [1] (by simp [Sorted]) (by simp)
+/-- in-sample seasonal mean, for EVERY in-sample step (window possibly cut by the start of the series) and every
+window length: the mean of the same-season observations among the `min wl (k+1)` available (NaN when there is none) -/
+theorem insample_seasonal_mean_eq_spec (y : Int → Val) (c : Int) (sp wl k : Nat) (hsp : 2 ≤ sp) :
+    predictLastWindow .mean sp wl (window y c (min wl (k + 1))) [1]
+      = .ok [Spec.Naive.seasonalMean y c (min wl (k + 1)) sp 1] :=
+  seasonal_mean_eq_spec y c sp (min wl (k + 1)) wl hsp [1] (by simp [Sorted]) (by simp)
 
-/-- (F2) negation at a witness: five observations, `sp = 2`, `window_length_ = 5` (the default: whole series), forecast
-for the last time point (step 0) from the four earlier observations: `reshape` raises ValueError although the same-season
-observations 0 and 4 (mean 2) are in the window. -/
-theorem insample_seasonal_mean_raises_witness :
-    predictLastWindow .mean 2 5 (window squares 3 (min 5 (3 + 1))) [1] = .error .value ∧
-    Spec.Naive.seasonalMean squares 3 (min 5 (3 + 1)) 2 1 = some 2 := by
-  refine ⟨by decide +kernel, by decide +kernel⟩
+/-- the pre-fix witness of F2: five observations, `sp = 2`, `window_length_ = 5`, step 0: raised ValueError, now 2 -/
+example : predictLastWindow .mean 2 5 (window squares 3 (min 5 (3 + 1))) [1] = .ok [some 2] := by decide +kernel
 
 /-- in-sample, seasonal last, once a whole season has been observed: the observation one season before `t` -/
 theorem insample_seasonal_last_eq_spec (y : Int → Val) (c : Int) (sp k : Nat) (hsp : 2 ≤ sp) (hfull : sp ≤ k + 1) :
